@@ -5,6 +5,7 @@ import SedpackDriver.Pool
 import SedpackDriver.Iter
 import SedpackDriver.Tree
 import SedpackDriver.Crash
+import SedpackDriver.Select
 open Lean
 namespace Sedpack.Drv
 
@@ -19,6 +20,7 @@ def dispatch (m : String) (j : Json) : Except String Json :=
   | "tree" => tree j
   | "check" => checkJ j
   | "crash" => crash j
+  | "select" => selectJ j
   | _ => .error s!"unknown model {m}"
 
 end Sedpack.Drv
